@@ -238,12 +238,26 @@ func runVec(name string, pure bool, shape string, k int, x, y []Word, s, r Word)
 		xc = buf[k : k+n]
 		z = buf[0:n]
 	}
-	c := decimal.VerifVec(name, pure, z, xc, yc, s, r)
+	var c Word
+	panicked := false
+	func() {
+		defer func() {
+			if e := recover(); e != nil {
+				panicked = true
+				fmt.Fprintf(os.Stderr, "kernel %s (pure=%v) panicked: %v\n", name, pure, e)
+			}
+		}()
+		c = decimal.VerifVec(name, pure, z, xc, yc, s, r)
+	}()
+	if panicked {
+		// reported through the transcript as an impossible result (no words, carry = all ones)
+		return nil, ^Word(0)
+	}
 	return append([]Word(nil), z...), c
 }
 
 func genVec(g *gen, w *bufio.Writer, n int, maxLen int) {
-	names := []string{"add10VV", "sub10VV", "add10VW", "sub10VW", "shl10VU", "shr10VU", "mulAdd10VWW", "addMul10VVW", "div10VWW"}
+	names := []string{"add10VV", "sub10VV", "add10VW", "sub10VW", "shl10VU", "shr10VU", "mulAdd10VWW", "addMul10VVW", "div10VWW", "divWVW"}
 	for i := 0; i < n; i++ {
 		name := names[g.r.Intn(len(names))]
 		l := g.length(maxLen)
@@ -251,6 +265,31 @@ func genVec(g *gen, w *bufio.Writer, n int, maxLen int) {
 		y := g.vec(l)
 		var s, r Word
 		switch name {
+		case "divWVW": // binary words (any 64-bit value); divisor 10^19 as dec.setNat uses it, and others
+			s = []Word{B, B, B, 1, 2, 10, 1 << 63, 1<<63 + 1, ^Word(0), Word(g.r.Uint64()) | 1}[g.r.Intn(10)]
+			for j := range x {
+				switch g.r.Intn(8) {
+				case 0:
+					x[j] = s
+				case 1:
+					x[j] = s - 1
+				case 2:
+					x[j] = ^Word(0)
+				case 3:
+					x[j] = 0
+				case 4:
+					x[j] = s + 1
+				default:
+					x[j] = Word(g.r.Uint64())
+				}
+			}
+			if l > 0 && g.r.Intn(3) == 0 {
+				x[l-1] = s // most significant word equal to the divisor
+			}
+			r = 0
+			if g.r.Intn(3) == 0 {
+				r = Word(g.r.Uint64()) % s
+			}
 		case "add10VW", "sub10VW":
 			s = g.word()
 			if g.r.Intn(2) == 0 {
